@@ -1,3 +1,4 @@
+CONSTANT Variant = "asbuilt"
 SPECIFICATION Spec
 INVARIANT ProtocolHolds
 INVARIANT Terminates
